@@ -256,7 +256,7 @@ def run(ctx):
     # shared ABI development (coq/STATIC, owner C06): rebuilt only if stale; C05's own files on every run
     b = ctx.coq_build(["C06/Abi.v", "C06/AbiLemmas.v", "C06/Roundtrip.v"], force=False)
     if b["ok"]:
-        b = ctx.coq_build(["C06/ZeroPad.v", "C06/Sexp.v", "C06/TplEncL.v", "C06/TplEncV.v", "C06/SxEval.v", "C06/VxEval.v"],
+        b = ctx.coq_build(["C06/ZeroPad.v", "C06/Sexp.v", "C06/TplEncL.v", "C06/TplEncV.v", "C06/SxEval.v", "C06/Widen.v", "C06/VxEval.v"],
                           force=False)
     if b["ok"]:
         b = ctx.coq_build(["C05/Dec.v", "C05/DecProofs.v", "C05/ReadsInside.v", "C05/DecImpl.v", "C05/DecImplProofs.v",
